@@ -6,10 +6,10 @@ package main
 
 import (
 	"fmt"
-	"os"
 	"go/ast"
 	"go/token"
 	"go/types"
+	"os"
 	"sort"
 	"strings"
 
@@ -26,13 +26,13 @@ type Loc struct {
 }
 
 type Val struct {
-	T    Term
-	Loc  *Loc   // pointer to a scalar cell
-	Tup  []Val  // tuple
-	Ty   types.Type
-	Addr *Term // address of the struct this value was loaded from (spec lvalues)
-	Glob string // name of the global this pointer designates
-	Ref  *Val   // name of an address-taken local: the pointer to load through, lazily
+	T     Term
+	Loc   *Loc  // pointer to a scalar cell
+	Tup   []Val // tuple
+	Ty    types.Type
+	Addr  *Term  // address of the struct this value was loaded from (spec lvalues)
+	Glob  string // name of the global this pointer designates
+	Ref   *Val   // name of an address-taken local: the pointer to load through, lazily
 	RefTy types.Type
 }
 
@@ -61,24 +61,25 @@ type Event struct {
 }
 
 type State struct {
-	vals   map[ssa.Value]Val
-	heaps  map[string]Term
-	pc     []Term
-	names  map[string]Val
-	open   map[*ssa.BasicBlock]bool
-	varnt  map[*ssa.BasicBlock][]Term
-	lallocs map[*ssa.BasicBlock]int
-	prev   *ssa.BasicBlock
-	allocs int
-	trace  []string
-	events []Event
-	entry  *Snapshot
-	frames []*frame
-	next   Term // allocation frontier: every address existing in this state is below it
-	pcSet  map[string]bool
-	hinted map[string]bool
-	ensStart int // length of pc when postcondition checking began (0 = not yet)
-	atServe map[string]Term // heaps right before the first ServeHTTP event
+	vals     map[ssa.Value]Val
+	heaps    map[string]Term
+	pc       []Term
+	names    map[string]Val
+	open     map[*ssa.BasicBlock]bool
+	varnt    map[*ssa.BasicBlock][]Term
+	lallocs  map[*ssa.BasicBlock]int
+	prev     *ssa.BasicBlock
+	allocs   int
+	trace    []string
+	events   []Event
+	entry    *Snapshot
+	frames   []*frame
+	dec      []Term // branch decisions taken on this path (used as merge guards)
+	next     Term   // allocation frontier: every address existing in this state is below it
+	pcSet    map[string]bool
+	hinted   map[string]bool
+	ensStart int             // length of pc when postcondition checking began (0 = not yet)
+	atServe  map[string]Term // heaps right before the first ServeHTTP event
 }
 
 // frame: an inlined (transparent) callee being executed.
@@ -131,6 +132,7 @@ func (s *State) clone() *State {
 	n.trace = append([]string(nil), s.trace...)
 	n.events = append([]Event(nil), s.events...)
 	n.frames = append([]*frame(nil), s.frames...)
+	n.dec = append([]Term(nil), s.dec...)
 	return &n
 }
 
@@ -170,34 +172,37 @@ func (s *State) assume(t Term) {
 }
 
 type Exec struct {
-	P       *Prog
-	fn      *ssa.Function
-	fname   string
-	c       *Contract
-	pkg     *types.Package
-	nfresh  int
-	vcs     []*VC
-	decls   map[string]string
-	axioms  map[string][]string
-	loops   []*ssa.BasicBlock
-	loopOf  map[*ssa.BasicBlock]map[*ssa.BasicBlock]bool
-	paths   int
-	trusted map[string]bool // trusted contracts / assumptions used
-	params  []NamedVal
-	maxAllocs int
-	relTag  string
-	noSafety bool
-	instDone map[string]bool
-	recDepth map[string]int
-	instDepth int // how deep contracts of applications inside instantiated contracts are unfolded
-	recDone  map[string]bool
+	P          *Prog
+	fn         *ssa.Function
+	fname      string
+	c          *Contract
+	pkg        *types.Package
+	nfresh     int
+	vcs        []*VC
+	decls      map[string]string
+	axioms     map[string][]string
+	loops      []*ssa.BasicBlock
+	loopOf     map[*ssa.BasicBlock]map[*ssa.BasicBlock]bool
+	paths      int
+	trusted    map[string]bool // trusted contracts / assumptions used
+	params     []NamedVal
+	maxAllocs  int
+	relTag     string
+	noSafety   bool
+	instDone   map[string]bool
+	recDepth   map[string]int
+	noMergeTop bool
+	rename     map[string]string // parameter renaming for the second copy of a self-composed run
+	collect    *[]*State
+	instDepth  int // how deep contracts of applications inside instantiated contracts are unfolded
+	recDone    map[string]bool
 	recPending map[string]bool
-	recName  map[string]string
-	lemmaText map[string]string
-	loopsDone map[*ssa.Function]bool
-	loopOrd  map[*ssa.BasicBlock]int
-	loopCon  map[*ssa.BasicBlock]*Contract
-	shared   map[string]string // body -> name of the shared definition
+	recName    map[string]string
+	lemmaText  map[string]string
+	loopsDone  map[*ssa.Function]bool
+	loopOrd    map[*ssa.BasicBlock]int
+	loopCon    map[*ssa.BasicBlock]*Contract
+	shared     map[string]string // body -> name of the shared definition
 }
 
 // share names a large term so that it is not textually duplicated by the
@@ -775,6 +780,9 @@ func (x *Exec) Run() (err error) {
 	bind := func(name string, v ssa.Value) {
 		t := v.Type()
 		pn := "p!" + name
+		if r, ok := x.rename[name]; ok {
+			pn = r // second copy of a self-composed run
+		}
 		x.declare(pn, x.P.sortOf(t))
 		val := Val{T: Term{sym(pn), x.P.sortOf(t)}, Ty: t}
 		st.vals[v] = val
@@ -802,6 +810,9 @@ func (x *Exec) Run() (err error) {
 	}
 	// requires
 	for _, r := range x.c.Requires {
+		if x.noSafety && strings.HasPrefix(r.Label, "forsafety") {
+			continue // precondition needed only by safety / callee-precondition obligations
+		}
 		env := x.envFor(st, nil)
 		t := x.trBool(env, r.E)
 		st.assume(t)
@@ -1102,12 +1113,18 @@ func (x *Exec) step(st *State, in ssa.Instruction) bool {
 		if c.S != "false" {
 			s1 := st.clone()
 			s1.assume(c)
+			if c.S != "true" {
+				s1.dec = append(s1.dec, c)
+			}
 			s1.prev = b
 			x.runBlock(s1, b.Succs[0])
 		}
 		if c.S != "true" {
 			s2 := st
 			s2.assume(Not(c))
+			if c.S != "false" {
+				s2.dec = append(s2.dec, Not(c))
+			}
 			s2.prev = b
 			x.runBlock(s2, b.Succs[1])
 		}
@@ -1275,6 +1292,12 @@ func (x *Exec) doReturn(st *State, in *ssa.Return) {
 		return
 	}
 	x.paths++
+	if x.collect != nil {
+		// self-composition: final states are collected instead of checked
+		fin := st.clone()
+		*x.collect = append(*x.collect, fin)
+		return
+	}
 	if os.Getenv("GOVC_DEBUG") != "" && x.paths%50 == 0 {
 		fmt.Fprintf(os.Stderr, "paths=%d vcs=%d trace=%d\n", x.paths, len(x.vcs), len(st.trace))
 	}
@@ -1332,7 +1355,6 @@ func (x *Exec) postEnv(st *State, results []Val) *Env {
 	}
 	return env
 }
-
 
 // hintsAt: intermediate assertions ("hint when v: E"): proved as their own
 // obligation in the state right after v is bound, then available as a fact.
